@@ -299,6 +299,34 @@ def _merge_eval(ctx, left_smaller):
     return ev, st, log, f
 
 
+def _bl(ctx):
+    """Name of the attribute in which `Blocks` keeps its list of blocks (what `insert` appends to)."""
+    def find():
+        P = ctx.P
+        f = P.func("vpsc.Blocks.insert")
+        for c in calls_in(f.node):
+            if isinstance(c.func, ast.Attribute) and c.func.attr == "append" and isinstance(c.func.value, ast.Attribute) and isinstance(c.func.value.value, ast.Name) and f.params and c.func.value.value.id == f.params[0]:
+                return c.func.value.attr
+        g = P.func("vpsc.Blocks.__init__")
+        for n in ast.walk(g.node):
+            if isinstance(n, ast.Assign) and len(n.targets) == 1 and isinstance(n.targets[0], ast.Attribute) and isinstance(n.targets[0].value, ast.Name) and n.targets[0].value.id == g.params[0] and isinstance(n.value, (ast.List, ast.BinOp)):
+                return n.targets[0].attr
+        return "_list"
+
+    return ctx.get("vpsc.blocklist-attr", find)
+
+
+def _strip_copy(k):
+    """Key of the sequence a snapshot expression copies: list(X), tuple(X), X[:], X.copy(), copy of a copy."""
+    import re
+
+    while True:
+        m = re.match(r"^(?:list|tuple)\((.*)\)$", k) or re.match(r"^(.*)\.copy\(\)$", k) or re.match(r"^(.*)\[:\]$", k)
+        if not m:
+            return k
+        k = m.group(1)
+
+
 @rule("VPSC.MERGE-TIGHT")
 def merge_tight(ctx, R):
     P = ctx.P
@@ -323,6 +351,7 @@ def merge_tight(ctx, R):
                         v = as_num(b[3])
                         if v is not None:
                             shifts[blk] = v - Num.atom("%s.offset" % elk)
+                        itk = _strip_copy(itk)  # iterating a snapshot of the list visits the same variables
                         full = itk in ("c.%s.block.vars" % blk, "range(len(c.%s.block.vars))" % blk, "enumerate(c.%s.block.vars)" % blk)
                         covered[blk] = full
         if len(shifts) != 1:
@@ -538,7 +567,7 @@ def _blocks_split_model(ctx):
         ev = new_eval(P, on_call=hook)
         st = ev.new_state(f)
         s = Opaque("self", cls=P.cls("vpsc.Blocks"), kind="obj")
-        st.heap[("self", "_list")] = Opaque("LIST", cls=P.cls("vpsc.Block"), kind="seq")
+        st.heap[("self", _bl(ctx))] = Opaque("LIST", cls=P.cls("vpsc.Block"), kind="seq")
         ev.nonempty.add("LIST")
         ev.call_closure(Closure(f, None, selfv=s), [Opaque("INACTIVE", kind="seq")], {}, st)
 
@@ -613,7 +642,7 @@ def index_rule(ctx, R):
     ev = new_eval(P)
     st = ev.new_state(f)
     s = Opaque("self", cls=P.cls("vpsc.Blocks"), kind="obj")
-    st.heap[("self", "_list")] = Opaque("LIST", kind="seq")
+    st.heap[("self", _bl(ctx))] = Opaque("LIST", kind="seq")
     ev.call_closure(Closure(f, None, selfv=s), [Opaque("b")], {}, st)
     bi = st.heap.get(("b", "blockInd"))
     appended = [e for e in st.events if e[0] == "seq-append" and e[1] == "LIST"]
@@ -628,7 +657,7 @@ def index_rule(ctx, R):
     f = P.func("vpsc.Blocks.__init__")
     ok = False
     for lp in [n for n in ast.walk(f.node) if isinstance(n, ast.For)]:
-        stores = [n for n in ast.walk(lp) if isinstance(n, ast.Assign) and isinstance(n.targets[0], ast.Subscript) and ntext(n.targets[0].value) == "self._list"]
+        stores = [n for n in ast.walk(lp) if isinstance(n, ast.Assign) and isinstance(n.targets[0], ast.Subscript) and ntext(n.targets[0].value) == "self." + _bl(ctx)]
         inds = [n for n in ast.walk(lp) if isinstance(n, ast.Assign) and isinstance(n.targets[0], ast.Attribute) and n.targets[0].attr == "blockInd"]
         if stores and inds and ntext(stores[0].targets[0].slice) == ntext(inds[0].value):
             src = ntext(stores[0].value)
@@ -660,9 +689,9 @@ def remove_rule(ctx, R):
             ev.assume_order(Opaque("b"), lastb, "ne")
         st = ev.new_state(f)
         s = Opaque("self", cls=P.cls("vpsc.Blocks"), kind="obj")
-        st.heap[("self", "_list")] = LIST
+        st.heap[("self", _bl(ctx))] = LIST
         ev.call_closure(Closure(f, None, selfv=s), [b], {}, st)
-        final = st.heap.get(("self", "_list"))
+        final = st.heap.get(("self", _bl(ctx)))
         pops = [e for e in st.events if e[0] == "seq-pop" and e[1] == "LIST"]
         shortened = key(final) == "LIST[:-1]" or (key(final) == "LIST" and len(pops) == 1 and (not pops[0][2] or key(pops[0][2][0]) == "-1"))
         tag = "b is last" if last else "b is not last"
@@ -709,6 +738,7 @@ def allcs(ctx, R):
     f = P.func("vpsc.Solver.__init__")
     R.saw(f)
     ev = new_eval(P)
+    ev.field_cls.update({"left": P.cls("vpsc.Variable"), "right": P.cls("vpsc.Variable")})  # accessor methods of the ends are inlined
     st = ev.new_state(f)
     s = Opaque("self", cls=P.cls("vpsc.Solver"), kind="obj")
     VS = Opaque("VS", cls=P.cls("vpsc.Variable"), kind="seq")
@@ -825,7 +855,7 @@ def cost_rule(ctx, R):
         st = ev.new_state(g)
         s = Opaque("self", cls=P.cls("vpsc.Blocks"), kind="obj")
         st.env.vars[g.params[0]] = s
-        st.heap[("self", "_list")] = Opaque("LIST", cls=P.cls("vpsc.Block"), kind="seq")
+        st.heap[("self", _bl(ctx))] = Opaque("LIST", cls=P.cls("vpsc.Block"), kind="seq")
         ev.block(g.node.body[: g.node.body.index(lp)], st, [])
         rets = [n for n in g.node.body if isinstance(n, ast.Return)]
         acc = rets[0].value.id if rets and isinstance(rets[0].value, ast.Name) else None
@@ -903,7 +933,7 @@ def lmtol(ctx, R):
             detail = "the split happens under %s" % (bounds or sorted(facts))
     R.check(ok, "VPSC.LMTOL", "Blocks.split|tolerance", where(f), detail, "blocks are split only when the minimum Lagrange multiplier is below a bound outside [-0.1, 1e-3] (%s): items stay pushed by constraints that should have been released, or blocks are split for ever" % detail)
     # examines every block
-    lps = [l for l in cfg.loops if isinstance(l["stmt"], ast.For) and ntext(l["stmt"].iter) == "self._list"]
+    lps = [l for l in cfg.loops if isinstance(l["stmt"], ast.For) and ntext(l["stmt"].iter) == "self." + _bl(ctx)]
     R.check(bool(lps) and any(_attr_call(k, "findMinLM") for k in calls_in(lps[0]["stmt"])), "VPSC.LMTOL", "Blocks.split|every block examined", where(f), "findMinLM() of every block", "Blocks.split does not examine the minimum multiplier of every block")
     if lps:
         lp = lps[0]["stmt"]
@@ -1102,6 +1132,13 @@ def iter_rule(ctx, R):
         detail = show(c) if c is not None else "no single exit test"
         if isinstance(c, Cond) and c.tree[0] == "cmp" and c.tree[1] in ("lt", "le"):
             thr, val = num_const(c.tree[2]), c.tree[3]
+            if thr is None and key(c.tree[2]) in (f.params + f.kwonly):
+                # the threshold is a parameter: what the package's own calls (and the default) give it
+                vals = param_values(ctx, f, key(c.tree[2]))
+                if vals:
+                    thr = max(vals)
+                    if min(vals) < 0:
+                        thr = None
             if thr is not None and isinstance(as_num(val), Num):
                 a = list(as_num(val).atoms())
                 isabs = len(a) == 1 and isinstance(a[0], tuple) and a[0][0] == "abs"
@@ -1121,7 +1158,7 @@ def update_all(ctx, R):
     ev = new_eval(P, inline_filter=lambda fn: fn is f)
     st = ev.new_state(f)
     s = Opaque("self", cls=P.cls("vpsc.Blocks"), kind="obj")
-    st.heap[("self", "_list")] = Opaque("LIST", cls=P.cls("vpsc.Block"), kind="seq")
+    st.heap[("self", _bl(ctx))] = Opaque("LIST", cls=P.cls("vpsc.Block"), kind="seq")
     ev.call_closure(Closure(f, None, selfv=s), [], {}, st)
     loops_ = [e for e in st.events if e[0] == "loop"]
     ok = len(loops_) == 1 and _covers_all(loops_[0][1], "LIST")
